@@ -1376,3 +1376,166 @@ def ob_operator(sess: Session, name: str, family: str, N: int, op: str, kind: st
                 "what": f"{text!r}: expected the operator token {kind} spanning {text[:n]!r}, the lexer produces {got}"}
 
     return Obligation(name, family, N, build, replay, [], timeout=timeout)
+
+
+def _consistent_all(sess: Session, w: dict) -> Tuple[bool, Dict[str, Tuple[str, int]], str]:
+    reals: Dict[str, Tuple[str, int]] = {}
+    for tag, t in w["texts"].items():
+        ok, real, why = sess.check_lex1(t)
+        if not ok:
+            return False, reals, why
+        reals[tag] = real
+    return True, reals, ""
+
+
+def ob_caseflip(sess: Session, name: str, family: str, N: int, timeout: Optional[float] = None) -> Obligation:
+    """forall texts c, d of equal length that differ only by the case of ASCII letters:  lex1(c) = lex1(d)."""
+
+    def build(txt: SymText, excl: List[Region]) -> Query:
+        eng = txt.eng
+        other = eng.text("d")
+        k1, e1 = txt.lex1()
+        k2, e2 = other.lex1()
+        ix = eng.alphabet.index
+        lower = eng.alphabet.idx("abcdefghijklmnopqrstuvwxyz")
+        upper = eng.alphabet.idx("ABCDEFGHIJKLMNOPQRSTUVWXYZ")
+        delta = ix["a"] - ix["A"]
+        pre = [txt.L == other.L, txt.has_prev == other.has_prev]
+        pre.append(z3.Or(txt.prev == other.prev, z3.And(txt._ranges(txt.prev, lower), other.prev == txt.prev - delta),
+                         z3.And(txt._ranges(txt.prev, upper), other.prev == txt.prev + delta)))
+        for i in range(txt.N):
+            pre.append(z3.Or(txt.c[i] == other.c[i],
+                             z3.And(txt.incls(i, lower), other.c[i] == txt.c[i] - delta),
+                             z3.And(txt.incls(i, upper), other.c[i] == txt.c[i] + delta)))
+        neg = [z3.Or(k1 != k2, e1 != e2)]
+        return Query(name, pre, neg, {"t": txt, "u": other}, {}, minimise=txt.L, family=family)
+
+    def replay(w: dict) -> dict:
+        ok, reals, why = _consistent_all(sess, w)
+        if not ok:
+            return {"consistent": False, "why": why}
+        a, b = w["texts"]["t"]["text"], w["texts"]["u"]["text"]
+        if len(a) != len(b) or any(x != y and not (x.isascii() and y.isascii() and x.isalpha() and x.swapcase() == y) for x, y in zip(a, b)):
+            return {"consistent": False, "why": f"{a!r} / {b!r} differ by more than ASCII letter case"}
+        return {"consistent": True, "reproduced": reals["t"] != reals["u"], "lexeme": a, "text": a, "prev": w["texts"]["t"]["prev"],
+                "expected": list(reals["t"]), "real": list(reals["u"]),
+                "what": f"{a!r} starts with {reals['t']} but its case variant {b!r} starts with {reals['u']}"}
+
+    return Obligation(name, family, N, build, replay, [], timeout=timeout)
+
+
+def ob_ws_token(sess: Session, name: str, family: str, N: int, ws_kind: str, layout: str, also: Sequence[str] = (),
+                timeout: Optional[float] = None) -> Obligation:
+    """forall text:  c[0] is a layout character  =>  lex1 is the white-space token spanning exactly the maximal run of
+    layout characters, or one of the tokens `also` (operators that own their surrounding white space);
+    and  lex1 = white-space token  =>  its extent is exactly the maximal run."""
+
+    def build(txt: SymText, excl: List[Region]) -> Query:
+        eng = txt.eng
+        lay = eng.alphabet.idx(layout)
+        k, e = txt.lex1()
+        R = pos_var("R")
+        runs = []
+        for r in range(1, txt.N + 1):
+            cs = [txt.L >= r] + [txt.incls(i, lay) for i in range(r)]
+            cs.append(z3.Or(txt.L == r, z3.Not(txt.incls(r, lay))) if r < txt.N else txt.L == r)
+            runs.append(z3.And(R == r, *cs))
+        is_ws = k == eng.kind_index(ws_kind)
+        pre = [txt.L >= 1, z3.Or(is_ws, txt.incls(0, lay)), z3.Or(z3.Or(runs), z3.And(R == 0, z3.Not(txt.incls(0, lay))))]
+        good = z3.Or(z3.And(is_ws, e == R, R >= 1), *[z3.And(k == eng.kind_index(o), e > R) for o in also if o in eng.kinds])
+        return Query(name, pre, [z3.Not(good)], {"t": txt}, {"R": R}, minimise=txt.L, family=family)
+
+    def replay(w: dict) -> dict:
+        ok, reals, why = _consistent_all(sess, w)
+        if not ok:
+            return {"consistent": False, "why": why}
+        text = w["texts"]["t"]["text"]
+        r = 0
+        while r < len(text) and text[r] in layout:
+            r += 1
+        real = reals["t"]
+        good = (real[0] == ws_kind and real[1] == r and r >= 1) or (real[0] in also and real[1] > r)
+        return {"consistent": True, "reproduced": not good, "lexeme": text[:max(r, 1)], "text": text, "prev": w["texts"]["t"]["prev"],
+                "expected": [ws_kind, r], "real": list(real),
+                "what": f"{text!r}: the leading white-space run has length {r}; the lexer produces {real}"}
+
+    return Obligation(name, family, N, build, replay, [], timeout=timeout)
+
+
+def ob_progress(sess: Session, name: str, family: str, N: int, timeout: Optional[float] = None) -> Obligation:
+    """forall non-empty text: lex1 is ERROR, a literal character (extent 1), or a rule match with 1 <= extent <= |text|."""
+
+    def build(txt: SymText, excl: List[Region]) -> Query:
+        k, e = txt.lex1()
+        good = z3.Or(z3.And(k == K_ERROR, e == FAIL), z3.And(k == K_LITERAL, e == 1), z3.And(k == K_IGNORE, e == 1),
+                     z3.And(k >= 0, e >= 1, e <= txt.L))
+        return Query(name, [txt.L >= 1], [z3.Not(good)], {"t": txt}, {}, minimise=txt.L, family=family)
+
+    def replay(w: dict) -> dict:
+        ok, reals, why = _consistent_all(sess, w)
+        if not ok:
+            return {"consistent": False, "why": why}
+        text = w["texts"]["t"]["text"]
+        kind, end = reals["t"]
+        good = (kind == "ERROR" and end == -1) or (kind in ("LITERAL", "IGNORE") and end == 1) or (1 <= end <= len(text))
+        return {"consistent": True, "reproduced": not good, "lexeme": text, "text": text, "prev": w["texts"]["t"]["prev"],
+                "expected": "progress", "real": [kind, end],
+                "what": f"{text!r}: the lexer step yields {kind} with extent {end} (no progress: tokenize would not terminate)"}
+
+    return Obligation(name, family, N, build, replay, [], timeout=timeout)
+
+
+def ob_no_empty_rule(sess: Session, name: str, family: str, N: int, timeout: Optional[float] = None) -> Obligation:
+    """no token rule, tried on its own at any text (also shadowed ones, also at the end of the text), matches the empty string."""
+
+    def build(txt: SymText, excl: List[Region]) -> Query:
+        R = pos_var("rule")
+        alts = [z3.And(R == i, txt.rule_end(nm) == 0) for i, nm in enumerate(txt.eng.names)]
+        return Query(name, [txt.L >= 0], [z3.Or(alts)], {"t": txt}, {"rule": R}, minimise=txt.L, family=family)
+
+    def replay(w: dict) -> dict:
+        t = w["texts"]["t"]
+        text, prev = t["text"], t["prev"]
+        nm = sess.spec and next(iter(sess.engines.values())).names[w["ints"]["rule"]]
+        # the rule on its own: its named group of the live master pattern, compiled alone by the real engine
+        parsed = re.compile(sess.spec.pattern, sess.spec.flags)
+        m = None
+        try:
+            sub = _rule_source(sess.spec.pattern, nm)
+            m = re.compile(sub, sess.spec.flags).match(prev + text, len(prev))
+        except Exception as e:  # noqa: BLE001
+            return {"consistent": False, "why": f"cannot isolate rule {nm}: {e!r}"}
+        del parsed
+        empty = m is not None and m.end() == len(prev)
+        return {"consistent": True, "reproduced": empty, "lexeme": text, "text": text, "prev": prev, "expected": "no empty match",
+                "real": [nm, 0 if empty else None], "what": f"token rule {nm} matches the empty string at the start of {text!r}"}
+
+    return Obligation(name, family, N, build, replay, [], timeout=timeout)
+
+
+def _rule_source(master: str, name: str) -> str:
+    """Source text of the named top-level alternative `(?P<name>...)` of a SLY master pattern (balanced scan)."""
+    start = master.index(f"(?P<{name}>")
+    depth, i, in_cls = 0, start, False
+    while i < len(master):
+        ch = master[i]
+        if ch == "\\":
+            i += 2
+            continue
+        if in_cls:
+            if ch == "]":
+                in_cls = False
+        elif ch == "[":
+            in_cls = True
+            if master[i + 1:i + 2] == "^":
+                i += 1
+            if master[i + 1:i + 2] == "]":
+                i += 1
+        elif ch == "(":
+            depth += 1
+        elif ch == ")":
+            depth -= 1
+            if depth == 0:
+                return master[start:i + 1]
+        i += 1
+    raise ValueError(name)
